@@ -20,7 +20,7 @@ RULES = [
 
 UNIT = dict(
     name="batch_complete",
-    props=["C04", "C08"],
+    props=["C04", "C08", "C10"],
     prelude=["core_types.rs", "str_ext.rs", "engine.rs", "sys_model.rs"],
     assumptions=[
         "R10 / A-URING: the kernel side of io_uring is a ghost completion sequence: one completion per submitted write, arbitrary order, arbitrary result codes; a result equal to the buffer length means the bytes are in the file",
@@ -34,7 +34,7 @@ UNIT = dict(
              sig="fn batch_complete(ring: &mut RingG, sys: &mut Sys, g: &mut GlobalsW, write_plan: &Vec<(Block, u64, usize)>, buffers: &Vec<Vec<u8>>, revert_info: &mut BatchRevertInfo, cur_offset: &mut u64, planning_offset: u64, total_bytes: usize) -> (ret: IoResult<()>)",
              rules=RULES,
              requires=[("", "!old(ring).submitted@"), ("", "buffers.len() == write_plan.len()"),
-                       ("", "plan_inside_files(write_plan@, *old(sys))"), ("", "*old(cur_offset) == old(revert_info).original_offset")],
+                       ("", "plan_inside_files(write_plan@, *old(sys))"), ("", "plan_paths_ok(write_plan@)"), ("", "*old(cur_offset) == old(revert_info).original_offset")],
              hints=[
                  dict(loop_body_start=2, text="                        let ghost s_in = *sys;"),
                  dict(loop_body_end=2, text="                        proof { lemma_zero_step(write_plan@, s_in, *sys, __i as int); }"),
@@ -42,37 +42,41 @@ UNIT = dict(
                  dict(loop_body_end=5, text="                    proof { lemma_zero_step(write_plan@, s_in, *sys, __i as int); }"),
              ],
              loops={
-                 0: dict(kind="for", invariant=[
+                 0: dict(kind="for", expect=r"completion_next", n_loops=8, invariant=[
                      ("", "ring.submitted@"), ("", "ring.cqes@.len() == write_plan.len()"), ("", "is_permutation_of_ops(ring.cqes@, write_plan.len() as int)"),
                      ("", "buffers.len() == write_plan.len()"), ("", "*sys == *old(sys)"), ("", "*cur_offset == *old(cur_offset)"), ("", "*revert_info == *old(revert_info)"),
                      ("C04:batch_ok_only_if_every_write_completed_in_full", "all_success ==> ring.taken@ == __k && forall|j: int| 0 <= j < __k ==> (#[trigger] ring.cqes@[j]).1 >= 0 && ring.cqes@[j].1 as int == buffers[ring.cqes@[j].0 as int].len()"),
                  ], ensures=[
                      ("C04:batch_ok_only_if_every_write_completed_in_full", "all_success ==> forall|j: int| 0 <= j < write_plan.len() ==> (#[trigger] ring.cqes@[j]).1 >= 0 && ring.cqes@[j].1 as int == buffers[ring.cqes@[j].0 as int].len()"),
                  ]),
-                 1: dict(kind="for", invariant=[("", "*cur_offset == *old(cur_offset)"), ("", "*revert_info == *old(revert_info)"), ("", "ring.submitted@"), ("", "sys.files == old(sys).files"),
+                 1: dict(kind="for", expect=r"sys_flush", n_loops=8, invariant_except_break=[("", "seen_synced(fsynced.s@, *sys)"), ("", "all_success"),
+                     ("C10:every_file_a_batch_wrote_to_is_flushed_before_the_batch_is_acknowledged", "plan_synced(write_plan@, *sys, __i as int)")],
+                     ensures=[("C10:every_file_a_batch_wrote_to_is_flushed_before_the_batch_is_acknowledged", "all_success ==> plan_synced(write_plan@, *sys, write_plan@.len() as int)")],
+                     invariant=[("", "plan_paths_ok(write_plan@)"),
+                     ("", "*cur_offset == *old(cur_offset)"), ("", "*revert_info == *old(revert_info)"), ("", "ring.submitted@"), ("", "sys.files == old(sys).files"),
                      ("", "buffers.len() == write_plan.len()"), ("", "plan_inside_files(write_plan@, *sys)"),
                      ("", "all_success ==> forall|j: int| 0 <= j < write_plan.len() ==> (#[trigger] ring.cqes@[j]).1 >= 0 && ring.cqes@[j].1 as int == buffers[ring.cqes@[j].0 as int].len()")]),
-                 2: dict(kind="for", invariant=[
+                 2: dict(kind="for", expect=r"zero_range", n_loops=8, invariant=[
                      ("", "plan_inside_files(write_plan@, *sys)"), ("", "buffers.len() == write_plan.len()"),
                      ("C04,C08:batch_err_zeroes_every_planned_header", "headers_zeroed(write_plan@, *sys, __i as int)"),
                      ("", "*cur_offset == *old(cur_offset)"), ("", "*revert_info == *old(revert_info)"),
-                 ]), 3: dict(kind="for", invariant=[
+                 ]), 3: dict(kind="for", expect=r"sys_flush", n_loops=8, invariant=[
                      ("", "plan_inside_files(write_plan@, *sys)"), ("", "buffers.len() == write_plan.len()"),
                      ("", "headers_zeroed(write_plan@, *sys, write_plan.len() as int)"),
                      ("", "*cur_offset == *old(cur_offset)"), ("", "*revert_info == *old(revert_info)"),
-                 ]), 4: dict(kind="for", invariant=[
+                 ]), 4: dict(kind="for", expect=r"set_block_unlocked", n_loops=8, invariant=[
                      ("", "headers_zeroed(write_plan@, *sys, write_plan.len() as int)"),
                      ("", "*cur_offset == old(revert_info).original_offset"), ("", "*revert_info == *old(revert_info)"),
                  ]),
-                 5: dict(kind="for", invariant=[
+                 5: dict(kind="for", expect=r"zero_range", n_loops=8, invariant=[
                      ("", "plan_inside_files(write_plan@, *sys)"), ("", "buffers.len() == write_plan.len()"),
                      ("C04,C08:batch_err_zeroes_every_planned_header", "headers_zeroed(write_plan@, *sys, __i as int)"),
                      ("", "*cur_offset == *old(cur_offset)"), ("", "*revert_info == *old(revert_info)"),
-                 ]), 6: dict(kind="for", invariant=[
+                 ]), 6: dict(kind="for", expect=r"sys_flush", n_loops=8, invariant=[
                      ("", "plan_inside_files(write_plan@, *sys)"), ("", "buffers.len() == write_plan.len()"),
                      ("", "headers_zeroed(write_plan@, *sys, write_plan.len() as int)"),
                      ("", "*cur_offset == *old(cur_offset)"), ("", "*revert_info == *old(revert_info)"),
-                 ]), 7: dict(kind="for", invariant=[
+                 ]), 7: dict(kind="for", expect=r"set_block_unlocked", n_loops=8, invariant=[
                      ("", "headers_zeroed(write_plan@, *sys, write_plan.len() as int)"),
                      ("", "*cur_offset == old(revert_info).original_offset"), ("", "*revert_info == *old(revert_info)"),
                  ]),
@@ -81,6 +85,7 @@ UNIT = dict(
                  ("C04:batch_ok_only_if_every_write_completed_in_full",
                   "ret is Ok ==> final(ring).submitted@ && forall|k: int| 0 <= k < write_plan.len() ==> (#[trigger] final(ring).cqes@[k]).1 >= 0 && final(ring).cqes@[k].1 as int == buffers[final(ring).cqes@[k].0 as int].len()"),
                  ("C04:batch_ok_publishes_the_planned_offset", "ret is Ok ==> *final(cur_offset) == planning_offset"),
+                 ("C10:every_file_a_batch_wrote_to_is_flushed_before_the_batch_is_acknowledged", "ret is Ok ==> plan_synced(write_plan@, *final(sys), write_plan@.len() as int)"),
                  ("C04:batch_err_restores_the_offset", "ret is Err ==> *final(cur_offset) == old(revert_info).original_offset"),
                  ("C04,C08:batch_err_zeroes_every_planned_header", "ret is Err ==> headers_zeroed(write_plan@, *final(sys), write_plan.len() as int)"),
              ]),
